@@ -11,13 +11,15 @@
         decoder-image lemmas [convert_samples_shape], [processed_samples_image],
         [read_banks_ok], [parse_line_image];
      3. floats: [int_times_ok] -- start + duration - start reproduces the duration for
-        integer-valued times (the general IEEE statement is not proved, see the end).
+        integer-valued times (Proofs/EncObjTimes.v; the general IEEE statement is not proved).
    The round-trip theorems [circle|spinner|hold]_line_round_trip combine them. *)
 From RM Require Import Model.EncObjCarry Model.HitObjectSpec Proofs.EncText Proofs.EncFmt Proofs.EncFloat Proofs.EncSimple Proofs.EncObjects Proofs.FramingFacts Proofs.NumFacts Proofs.HitObjectLineFacts Proofs.EncObjTimes Proofs.EncRound.
 From RM Require Import Gen.Generated.
 From Flocq Require Import BinarySingleNaN.
 From Coq Require Import ZifyBool.
 Open Scope Z_scope.
+
+(* ---------- sample banks: what read_custom_sample_banks / convert_sound_type produce ---------- *)
 
 Lemma bank13_cases b : bank13 b = true -> b = 1 \/ b = 2 \/ b = 3.
 Proof. unfold bank13. lia. Qed.
@@ -133,6 +135,8 @@ Proof.
     all: match goal with H : bank13 ?x = true |- _ => destruct (bank13_cases x H) as [->|[->| ->]] end.
     all: vm_compute; reflexivity.
 Qed.
+
+(* ---------- the text layer: the exact re-read ---------- *)
 
 Lemma reread_info_vals mode l nb ab cu vo f : extras_vals l mode = (nb, ab, cu, vo, f) ->
   reread_info mode l =
@@ -713,6 +717,13 @@ Example decoded_objects_round_trip :
   end.
 Proof. vm_compute. repeat split; reflexivity. Qed.
 
+(* inside a sequence of lines: after an accepted circle / spinner / hold line the state forces a
+   new combo exactly when that object was a spinner *)
+Lemma combo_kept_push st o c :
+  combo_kept (push st o) c =
+  (ci_new_combo c || negb (match h_kind o with KSpinner _ => true | _ => false end)) && circle_image c.
+Proof. unfold combo_kept, push, first_object, last_object_was_spinner. cbn [ho_last]. destruct (h_kind o); reflexivity. Qed.
+
 (* ---------- the end time can leave the parse limit by rounding: the line is then REJECTED ---------- *)
 
 (* an object that satisfies everything of [object_ok] except that start + duration, though
@@ -856,3 +867,22 @@ Proof.
     clear - W. destruct (hov_hit_objects (bmv_ho m)) as [|x [|y [|z r]]]; try discriminate W.
     cbn [map] in W. injection W as H1 H2. cbn [forallb]. rewrite H1, H2. reflexivity.
 Qed.
+
+(* ---------- status of T02b ----------
+   FULL intended statement:
+     for every decoded map m (chronological input), every circle / spinner / hold h among its
+     hit objects, every line l with object_line dist (mode m) h = Done l, and the parser state st
+     reached on the preceding encoded lines:
+       parse_hit_objects st (render l) = Done (push st o, Ok)  with  carry_object o = carry_object h.
+   PROVED here, for every parser state and every formatting function with [fmt_ok]:
+     - the statement under the explicit hypotheses  object_ok h,  samples_image (h_samples h),
+       spinner_time_ok / hold_time_ok,  combo_kept st c   ([*_line_round_trip]); without the last
+       three the object that is read is still given exactly ([object_line_reread]);
+     - on the decoder's image: samples_image (processed_object_inv, for sample points with a real
+       bank), circle_image and the spinner centre (parse_line_inv, force_new_combo_inv,
+       processed_object_inv), combo_kept inside a sequence (combo_kept_push);
+     - spinner_time_ok / hold_time_ok for integer-valued times (decoded_times_ok_partial).
+   NOT proved: object_ok on the decoder's image -- and it is FALSE there: start + duration can
+   leave the parse limit by rounding (decoded_end_beyond_limit_refuted: the object is lost);
+   the two time conditions for non-integer times; "every sample point has a real bank" (the
+   decoder replaces None by Normal; EncImage only proves the four-variant range). *)
